@@ -59,12 +59,12 @@ theorem offset_inside (s : CurState) (hi : Cur.Inv s) :
   have := hi.1; omega
 
 /-- `remain` = end − offset (as integers: nothing is clamped when the invariant holds) -/
-theorem remain_eq (s : CurState) (hi : Cur.Inv s) :
+theorem remain_eq (s : CurState) (hi : Cur.Inv s) (hroom : full s = false) :
     step s .remain =
       ({ s with ds := .int (((s.base + s.input.length : Nat) : Int) - ((s.base + s.pos : Nat) : Int)) :: s.ds },
        .ok ()) := by
   have := hi.1
-  simp only [step, pushC, remainOf]
+  simp only [step, pushC, remainOf, hroom, Bool.false_eq_true, if_false]
   have e : ((s.input.length - s.pos : Nat) : Int) =
       ((s.base + s.input.length : Nat) : Int) - ((s.base + s.pos : Nat) : Int) := by omega
   rw [e]
@@ -82,6 +82,25 @@ theorem read_ok (s s' : CurState) (op : POp) (hop : op.isRead = true)
       s' = { s with pos := s.pos + n, ds := v :: s.ds.drop op.arity } :=
   read_ok_aux s op s' hop h
 
+/-- … and it found room for its result: counted without the word's own arguments, the stack was below the limit
+    configured with `set_stack_limit`.  Read the other way round: **with the stack at its limit no read succeeds** —
+    and by `fail_atomic` a read that does not succeed, for this reason as for any other, leaves input, offset and
+    stash untouched (the code used to move the offset before the refused push: repair afd22d3). -/
+theorem read_ok_room (s s' : CurState) (op : POp) (hop : op.isRead = true)
+    (h : step s op = (s', .ok ())) : full { s with ds := s.ds.drop op.arity } = false :=
+  read_room_aux s op s' hop h
+
+/-- the refusal spelled out: a read with the stack at its limit fails and moves nothing -/
+theorem read_refused_moves_nothing (s : CurState) (op : POp) (hop : op.isRead = true)
+    (hfull : full { s with ds := s.ds.drop op.arity } = true) :
+    (step s op).2 ≠ .ok () ∧ Same s (step s op).1 := by
+  have hne : (step s op).2 ≠ .ok () := by
+    intro hok
+    have := read_ok_room s (step s op).1 op hop (by rw [← hok])
+    rw [hfull] at this
+    exact Bool.noConfusion this
+  exact ⟨hne, (fail_atomic_aux s op _ _ rfl hne).1⟩
+
 /-- the bits handed back by `bits` are the slice itself and have the requested length -/
 theorem read_ok_bits (s s' : CurState) (h : step s .bits = (s', .ok ())) :
     ∃ n c, s.ds.head? = some c ∧ c.toUsize = .ok n ∧
@@ -93,13 +112,11 @@ theorem read_ok_bits (s s' : CurState) (h : step s .bits = (s', .ok ())) :
 /-- conversely a `bits` inside the input does succeed — for any representable size argument -/
 theorem read_succeeds_bits (s : CurState) (c : Cell) (t : List Cell) (n : Nat)
     (hds : s.ds = c :: t) (hn : c.toUsize = .ok n) (hfit : s.pos + n ≤ s.input.length)
-    (hbuf : s.base + s.input.length ≤ usizeMaxN) :
+    (hbuf : s.base + s.input.length ≤ usizeMaxN) (hroom : full { s with ds := t } = false) :
     step s .bits = ({ s with pos := s.pos + n, ds := .bitstr (slice s n) :: t }, .ok ()) := by
-  simp only [step, popUsize, popCell, hds, lift, hn, readWith, peek, moveThen, pushC, slice]
+  simp only [step, popUsize, popCell, hds, lift, hn, readWith_eq, peek, slice, hroom]
   have h1 : ¬ (s.base + s.pos + n > usizeMaxN) := by omega
-  have h3 : s.base ≤ s.base + s.pos + n ∧ s.base + s.pos + n ≤ s.base + s.input.length := by omega
-  simp [h1, hfit, h3]
-  omega
+  simp [h1, hfit]
 
 /-- `seek p` succeeds exactly for start ≤ p ≤ end, and then offset = p -/
 theorem seek_iff (s : CurState) (c : Cell) (t : List Cell) (p : Nat)
@@ -202,7 +219,7 @@ theorem stash_flat (ops : List POp) (s : CurState) (hflat : ops.all notOpenClose
     rw [runAll_cons, ih _ hflat.2]
     have h1 := hflat.1
     cases op <;> simp [notOpenClose] at h1 <;>
-    simp only [step, popUsize, popBitstr, popCell, lift, readWith, nulRead, moveAbs, moveThen, pushC,
+    simp only [step, popUsize, popBitstr, popCell, lift, readWith_eq, nulRead_eq, moveAbs, moveThen, pushC,
       packIntBo, packFloatBo] <;>
     (repeat' split) <;> simp_all
 
@@ -244,6 +261,14 @@ example : step { exState with ds := [.int (2^64), .nil] } .bits =
 /-- `2^64-1 bits`: the offset addition would overflow usize — ReadError, nothing moved -/
 example : step { exState with ds := [.int (2^64 - 1), .nil] } .bits =
     ({ exState with ds := [.nil] }, .err (.readError 7 (2^64 - 1))) := by decide
+
+/-- the hypothesis of `read_refused_moves_nothing` is met by a stack at its limit — `set_stack_limit(Some(1))` with one
+    cell on the stack, then `u8` (no argument), or `4 bits` with the limit lowered to 0 after the argument was pushed -/
+example : full { ({ exState with stackLimit := some 3 } : CurState) with ds := ({ exState with stackLimit := some 3 } : CurState).ds.drop (POp.readU 8 none).arity } = false := by decide
+example : full { ({ exState with stackLimit := some 2 } : CurState) with ds := ({ exState with stackLimit := some 2 } : CurState).ds.drop (POp.readU 8 none).arity } = true := by decide
+example : full { ({ exState with stackLimit := some 1 } : CurState) with ds := ({ exState with stackLimit := some 1 } : CurState).ds.drop POp.bits.arity } = true := by decide
+example : Same ({ exState with stackLimit := some 1 } : CurState) (step { exState with stackLimit := some 1 } .bits).1 :=
+  (read_refused_moves_nothing _ .bits rfl (by decide)).2
 
 /-- nested open/close with a failing read in between satisfies `hnest`/`hbal` of `open_close_lifo` -/
 example :
